@@ -35,6 +35,9 @@ fn cfgs() -> Vec<PairCfg> {
     add("padmtu+gso", &|c| { c.client.pad_to_mtu = true; c.server.pad_to_mtu = true; c.max_datagrams = 10; });
     add("gso1", &|c| c.max_datagrams = 1);
     add("cert10k", &|c| c.cert_len = 10_000);
+    // the application reports a path change (MTU discovery restarts) while the initial MTU is above what the peer accepts
+    add("init1400+peer1300+pathchanged", &|c| { c.client.initial_mtu = 1400; c.server.initial_mtu = 1400; c.server_max_udp = Some(1300); c.client_max_udp = Some(1300); });
+    add("default+pathchanged", &|_| {});
     add("min1280init1400", &|c| { c.client.initial_mtu = 1400; c.client.min_mtu = 1280; c.server.initial_mtu = 1400; c.server.min_mtu = 1280; });
     v
 }
@@ -52,6 +55,7 @@ struct Limits {
     upper: [u16; 2],
     peer_max: [u64; 2],
     min_mtu: [u16; 2],
+    initial: [u16; 2],
 }
 
 fn limits(cfg: &PairCfg) -> Limits {
@@ -65,6 +69,7 @@ fn limits(cfg: &PairCfg) -> Limits {
         upper: [up(&cfg.server).max(cfg.server.initial_mtu), up(&cfg.client).max(cfg.client.initial_mtu)],
         peer_max: [cfg.client_max_udp.unwrap_or(1472) as u64, cfg.server_max_udp.unwrap_or(1472) as u64],
         min_mtu: [cfg.server.min_mtu, cfg.client.min_mtu],
+        initial: [cfg.server.initial_mtu, cfg.client.initial_mtu],
     }
 }
 
@@ -87,7 +92,10 @@ pub fn size_violations(p: &StdPair, cfg: &PairCfg) -> (Vec<(String, String)>, u6
                 batch_sizes.entry(*batch).or_default().push(len);
                 // MTU estimate changes
                 if let Some(prev) = last_mtu[*node] {
-                    if *mtu_before > prev && !delivered_probe[*node].contains(&(*mtu_before as usize)) {
+                    // (a return to the configured initial MTU, which the application vouches for, needs
+                    // no probe: that is what path_changed() does)
+                    let back_to_initial = *mtu_before as u64 == (lim.initial[*node] as u64).min(lim.peer_max[*node]);
+                    if *mtu_before > prev && !back_to_initial && !delivered_probe[*node].contains(&(*mtu_before as usize)) {
                         out.push(("mtu-rose-without-acked-probe".into(), format!("node{node} at {t:?}: MTU estimate rose {prev} -> {mtu_before} but no probe of {mtu_before} bytes had been delivered to the peer")));
                     }
                 }
@@ -95,6 +103,16 @@ pub fn size_violations(p: &StdPair, cfg: &PairCfg) -> (Vec<(String, String)>, u6
                 let floor = (lim.min_mtu[*node] as u64).min(lim.peer_max[*node]) as u16;
                 if *mtu_before < floor {
                     out.push(("mtu-below-floor".into(), format!("node{node} at {t:?}: MTU estimate {mtu_before} below min(min_mtu, peer max_udp_payload_size) = {floor}")));
+                }
+                // once the handshake is done (1-RTT packets), neither the estimate nor any datagram
+                // may exceed what the peer said it accepts
+                if pk.iter().any(|(h, _)| h.ty == PType::Short) {
+                    if *mtu_before as u64 > lim.peer_max[*node] {
+                        out.push(("mtu-estimate-above-peer-limit".into(), format!("node{node} at {t:?}: MTU estimate {mtu_before} exceeds the peer's max_udp_payload_size {}", lim.peer_max[*node])));
+                    }
+                    if len as u64 > lim.peer_max[*node] {
+                        out.push(("datagram-above-peer-limit".into(), format!("node{node} at {t:?}: datagram #{idx} of {len} bytes exceeds the peer's max_udp_payload_size {}", lim.peer_max[*node])));
+                    }
                 }
                 let is_probe = len > *mtu_before as usize
                     && frames.iter().all(|f| matches!(f, WFrame::Ping | WFrame::ImmediateAck | WFrame::Padding(_)))
@@ -171,7 +189,12 @@ fn run_case(base: Instant, c: &Case, dump: bool) -> (u64, Vec<(String, String)>,
             w.link_mtu = c.m0;
             w.probe_pre = true;
         });
-        let done = drive(&mut p, &[(c.at, Op::LinkMtu(c.m1))], 60_000, Duration::from_secs(900));
+        let mut script = vec![(c.at, Op::LinkMtu(c.m1))];
+        if c.cfg.contains("pathchanged") {
+            script.push((c.at, Op::PathChanged(CLIENT)));
+            script.push((c.at + 4, Op::PathChanged(SERVER)));
+        }
+        let done = drive(&mut p, &script, 60_000, Duration::from_secs(900));
         (p, done)
     });
     match r {
